@@ -88,7 +88,7 @@ def gen(rng, tier):
     return cases
 
 PINNED = ['C03_holds', 'C03_wf_needed', 'C03_conservation', 'C03_pop_at_most_once', 'C03_len_bound', 'C03_quiescent_exact', 'C03_outcome_ok', 'C03_all_outcomes_ok', 'C03_old_protocol_refuted']
-LEVEL_TEXT = 'Theorem over ALL well-formed sequential histories (any number of handles, capacities, priorities, lengths) of the Gallina transcription of ordered_work_steal.rs: popped items are pending items and never repeat, an idle local pop implies nothing is pending (hence a drain returns exactly the pending multiset), shared/full length exact. Proved by a multiset-conservation invariant over every model step (overflow, steal, shared pop). The transcription is tied to /repo by lockstep histories on the real source (shim-included so the random steal start is an input). Concurrent part: a small-step model of the shared queue of BOTH queues (one step per atomic/injector access) with theorems for ANY number of threads, programs and schedules: conservation, pop-at-most-once, the counter never under-reports, exactness and exact drain at quiescence; tied to /repo by enumerating ALL interleavings of 2-3 real threads over the shim points of the real source and comparing the set of reachable outcomes with the model's set inside Coq.'
+LEVEL_TEXT = 'Theorem over ALL well-formed sequential histories (any number of handles, capacities, priorities, lengths) of the Gallina transcription of ordered_work_steal.rs: popped items are pending items and never repeat, an idle local pop implies nothing is pending (hence a drain returns exactly the pending multiset), shared/full length exact. Proved by a multiset-conservation invariant over every model step (overflow, steal, shared pop). The transcription is tied to /repo by lockstep histories on the real source (shim-included so the random steal start is an input). Concurrent part: a small-step model of the shared queue of BOTH queues (one step per atomic/injector access) with theorems for ANY number of threads, programs and schedules: conservation, pop-at-most-once, the counter never under-reports, exactness and exact drain at quiescence; tied to /repo by enumerating ALL interleavings of 2-3 real threads over the shim points of the real source and comparing the set of reachable outcomes with the set the model reaches, inside Coq.'
 LEVEL_NOTE = ("Trusted: Coq kernel + vm_compute; hand transcription of ordered_work_steal.rs (model OWS.v) validated on the "
               "sampled histories only; st3 rings / crossbeam injectors / skiplist modelled as FIFO lists and a sorted map; "
               "sequential histories (one call at a time); the steal start index is an input via the build.rs import "
